@@ -17,14 +17,28 @@ def sub_kernel(c, ctx):
                                                      extra=["-replay", "-consumers"], base=100000)
     cases += cases2
     crashes += crashes2
+    # third part: the two inputs recorded as known findings are generated as well (a replayed header committed in a
+    # round the mirror has left; a slow state machine entering such a round). Each kills the kernel, so one case per
+    # process; any OTHER crash in these runs is an unlisted violation like everywhere else.
+    nh = 12 if c.tier == "quick" else 120
+    cases3, stats3, crashes3 = mirrorlib.run_harness(c, binary, c.seed + 2909, nh, nops + 10,
+                                                     extra=["-replay", "-consumers", "-hazards"], base=200000, batch=1)
+    cases += cases3
+    crashes += crashes3
+    for key, val in stats3.items():
+        stats[key] = stats.get(key, 0) + val
     for key, val in stats2.items():
         stats[key] = stats.get(key, 0) + val
     n_steps = sum(len(k["steps"]) for k in cases)
-    for cr in crashes[:3]:
+    seen_keys = set()
+    for cr in crashes:
         m = re.search(r"panic: (.*)", cr["stderr"])
         first = m.group(1)[:160] if m else "process exited %s" % cr["rc"]
         site = re.search(r"(kernel\.go|kstate\.go|mirror\.go|simplecommonmessagesignatureproof\.go|sparsesignaturecollection\.go):(\d+)", cr["stderr"])
-        key = "mirror-crash-" + (re.sub(r"[^A-Za-z0-9]+", "-", first)[:60])
+        key = "mirror-crash-" + (re.sub(r"[^A-Za-z]+", "-", first)[:60])   # digits dropped: heights and rounds vary
+        if key in seen_keys:
+            continue
+        seen_keys.add(key)
         k = [x for x in cases if x["idx"] == cr["case"]]
         steps = [{"op": op, "impl_result": res} for op, res, _ in (k[0]["steps"] if k else [])]
         c.report(key, "the real mirror crashed: %s (%s)" % (first, site.group(0) if site else "?"),
